@@ -378,7 +378,9 @@ LEVEL_TEXT = ("Coq proofs, for all histories of dispatch / abort / drop-handle /
               "(hence all completion orders and all executor poll orders), that at every idle point of the modelled ArcAction "
               "pending() is true exactly when some dispatch has neither completed nor been aborted, version() equals the number "
               "of writes (= completions observed without an abort message), value() is the result of the last of them (None after "
-              "clear), input() is None when nothing is pending, an aborted dispatch never writes, and that every multi-action "
+              "clear), input() is None when nothing is pending, an aborted dispatch never writes, an action created with an initial value "
+              "(server action restored from a URL-encoded error) runs like a fresh one and keeps that value until its first "
+              "completion or clear, and that every multi-action "
               "submission record is a function of its own events only — about an executable Gallina transcription of "
               "ArcAction::dispatch's spawned task (select_biased!), abort/clear and ArcMultiAction::dispatch/cancel; tied to /repo by "
               "running the extracted model and the real ArcAction / Action / local variants / ArcMultiAction on the same "
